@@ -416,6 +416,36 @@ def dzkp_validate_path(ctx, facts, rule):
             if not on_empty:
                 early.append(ob_)
         ctx.ob(rule, "Batch::validate:ok-only-if-empty-or-verified", not early and bool(emp), "Ok without a proof only for an empty batch" if not early and emp else "Batch::validate can return Ok for a non-empty batch without running the verifier", site_of(bb_, early[0]) if early else site_of(bb_))
+    # 2b. what "empty" means: no gate has recorded anything (a batch with one empty gate among others is NOT empty)
+    eb = facts.bodies.get("protocol::context::dzkp_validator::Batch::is_empty")
+    if eb is None:
+        ctx.missing(rule, "Batch::is_empty")
+    else:
+        ctx.count(bodies=1)
+        ok_e = True
+        why_e = "true only if the gate map is empty or every gate's store is empty"
+        for bb2, idx2, d2 in eb.defs().get(0, []):
+            if idx2 == "t":
+                fn2 = F.callee(d2)[0] or ""
+                if fn2.endswith("Iterator::all"):
+                    a1 = flow.expr_of(eb, d2["args"][1], max_depth=4)
+                    if not (a1[0] == "fn" and a1[1].endswith("MultiplicationInputsBatch::is_empty")) or "values" not in str(flow.expr_of(eb, d2["args"][0], max_depth=4)):
+                        ok_e, why_e = False, "Batch::is_empty's `all` does not range over every gate's is_empty()"
+                elif re.search(r"(BTreeMap|HashMap)::<K, V, [AS]>::is_empty$|::is_empty$", fn2) and "inner" in str(flow.expr_of(eb, d2["args"][0], max_depth=4)):
+                    pass
+                else:
+                    ok_e, why_e = False, f"Batch::is_empty returns {fn2.split('::')[-1]}(..): a batch can count as empty (and be accepted without a proof) although some gate recorded multiplications"
+            else:
+                v = flow.expr_of(eb, d2.get("o"), max_depth=4) if "o" in d2 else ("?",)
+                if v == ("const", 1):
+                    # `true` literal: only on the edge where the map itself is empty
+                    domx = eb.dominators()
+                    gsx = guards(eb, r"(BTreeMap|HashMap)::<K, V, [AS]>::is_empty$")
+                    if not any(flow.dominates(domx, g[2][1], bb2) for g in gsx):
+                        ok_e, why_e = False, "Batch::is_empty returns true without the gate map being empty"
+                elif v != ("const", 0):
+                    ok_e, why_e = False, f"Batch::is_empty returns {str(v)[:60]}"
+        ctx.ob(rule, "Batch::is_empty:all-gates-empty", ok_e, why_e, site_of(eb))
     # 3. check_zero
     cz = async_body(facts, "protocol::basics::check_zero::malicious_check_zero")
     if cz is None:
@@ -612,6 +642,63 @@ def segment_packing(ctx, facts, rule):
     except NoEval as u:
         ok, why = False, f"cannot evaluate the block arithmetic ({u})"
     ctx.ob(rule, "large:blocks-disjoint", ok, why, site_of(b, base[0]))
+
+
+def batch_origin(ctx, facts, rule):
+    """The Batcher cuts records into batches of M; the proof batch it creates for index k must start at record k*M
+    with the same M, otherwise positions computed from (record - first_record) land in the wrong slots."""
+    from rules.C13 import ieval, NoEval
+    ctx.rule(f"{rule} (origin): MaliciousDZKPValidator::new hands Batcher::new the same M = max_multiplications_per_gate that it gives every Batch::new, and batch k gets first_record = RecordId::from(k * M) (None only for the unlimited batch M = usize::MAX) - the product evaluated for k = 0..8, M = 1..8")
+    root = "protocol::context::dzkp_validator::MaliciousDZKPValidator::<'a, B>::new"
+    top = facts.bodies.get(root)
+    tree = facts.tree(root)
+    ctor = next((b for b in tree if b.kind == "Closure" and flow.find_calls(b, re.compile(r"dzkp_validator::Batch::new$"))), None)
+    inner = next((b for b in tree if b.kind == "Closure" and b is not ctor and flow.find_calls(b, re.compile(r"From::from$"))), None)
+    if top is None or ctor is None or inner is None:
+        return ctx.missing(rule, "MaliciousDZKPValidator::new and its batch constructor closures")
+    ctx.count(bodies=3)
+    bn = flow.find_calls(top, re.compile(r"batcher::Batcher::<'a, B>::new$"))
+    bc = flow.find_calls(ctor, re.compile(r"dzkp_validator::Batch::new$"))
+    ff = flow.find_calls(inner, re.compile(r"From::from$"))
+    ok, why = False, "constructor shape not recognised"
+    if len(bn) == 1 and len(bc) == 1 and len(ff) == 1:
+        m_top = flow.expr_of(top, bn[0][1]["args"][0], max_depth=4)
+        m_batch = flow.expr_of(ctor, bc[0][1]["args"][1], max_depth=4)
+        fr = flow.expr_of(ctor, bc[0][1]["args"][0], max_depth=6)
+        prod = flow.expr_of(inner, ff[0][1]["args"][0], max_depth=6)
+        same_m = m_top[0] == "arg" and m_batch[0] == "upvar" and flow.upvar_name(ctor, 0) is not None
+        guard = fr[0] == "call" and fr[1].endswith("bool>::then") and fr[2][0][0] == "bin" and fr[2][0][1] == "Ne" and ("const", 18446744073709551615) in fr[2][0][2:]
+        bad = None
+        try:
+            # which captured variable of the inner closure is the batch index (the constructor's parameter) and which is M
+            idx = mm = None
+            old = flow.CLOSURE_DEFS
+            flow.CLOSURE_DEFS = True
+            try:
+                for bb2, idx2, s2 in ctor.iter_assigns():
+                    r2 = s2["r"]
+                    if r2["k"] == "agg" and r2.get("def") == inner.path:
+                        for i, o in enumerate(r2["ops"]):
+                            src = flow.expr_of(ctor, o, max_depth=4)
+                            nm = flow.upvar_name(inner, i)
+                            if src == ("arg", 2):
+                                idx = ("upvar", nm)
+                            elif src == m_batch:
+                                mm = ("upvar", nm)
+            finally:
+                flow.CLOSURE_DEFS = old
+            if idx is None or mm is None:
+                raise NoEval("first_record is not a function of (batch index, M)")
+            for k in range(9):
+                for M in range(1, 9):
+                    v = ieval(prod, {idx: k, mm: M})
+                    if v != k * M and bad is None:
+                        bad = f"batch {k} with M = {M} starts at record {v}, the Batcher files records {k * M}..{k * M + M - 1} under it"
+        except NoEval as ex:
+            bad = f"cannot evaluate first_record ({ex})"
+        ok = same_m and guard and bad is None
+        why = "Batcher and Batch use the same M; batch k starts at record k*M (None for the unlimited batch)" if ok else (bad or ("the batch size handed to the Batcher is not the M given to each Batch" if not same_m else "first_record is not guarded by M != usize::MAX"))
+    ctx.ob(rule, "batch-origin", ok, why, site_of(ctor))
 
 
 def walk_all(e):
